@@ -62,6 +62,12 @@ for _m, _l, _r in nc.SIGN_WITNESSES:  # spin modes next to fermions: every branc
     WITNESSES.append(dict(modes=_m, tree=["mul", _l, _r], grid=_bin_grid(_m), kind="witness"))
 
 
+WITNESSES.append(  # finding D25: (a + f† N_f) + form; the vanishing term f† N_f used to hide the operator f from find_operators
+    dict(modes=["B", "F"], tree=["add", ["add", ["op", 0, 0], ["mul", ["op", 1, 1], ["num", 1]]], ["mul", ["num", 0], ["op", 1, 0]]],
+         grid=[[0, 0], [1, 1], [2, 0], [3, 1]], kind="mixed",
+         mixed=dict(x=["mul", ["num", 0], ["op", 1, 0]], e=["add", ["op", 0, 0], ["mul", ["op", 1, 1], ["num", 1]]], op="radd")))
+
+
 def gen_case(rng, kind=None):
     modes = nc.rand_modes(rng)
     kind = kind or rng.choice(
@@ -142,12 +148,6 @@ def run_impl(case):
     elif case["kind"] == "mixed":
         m = case["mixed"]
         X, E = nc.build_impl(m["x"], ops), nc.to_sympy(m["e"], ops)
-        from pymablock.number_ordered_form import find_operators, operator_types
-        written = {str(a_.name) for t_ in operator_types for a_ in E.atoms(t_)}
-        if not written <= {str(o_.name) for o_ in find_operators(E)}:
-            # reported defect (find_operators evaluates the expression first, so an identically vanishing term such as
-            # Dagger(f)*N_f hides its operator and from_expr(E) raises ValueError): kept out of the tie until decided
-            raise SkipCase("find_operators misses an operator of a vanishing term")
         x = {"radd": lambda: E + X, "add": lambda: X + E, "sub": lambda: X - E, "rmul": lambda: E * X, "mul": lambda: X * E}[m["op"]]()
         if not isinstance(x, nc.NumberOrderedForm):
             raise TypeError("%s of a NumberOrderedForm and a sympy expression returned %s" % (m["op"], type(x).__name__))
